@@ -5,4 +5,5 @@ let () =
   | [| _; "shard" |] -> Shard_mode.run ()
   | [| _; "grow" |] -> Grow_mode.run ()
   | [| _; "scenario" |] -> Scen_mode.run ()
+  | [| _; "stackspec" |] -> Stackspec_mode.run ()
   | _ -> prerr_endline "usage: kmodel <mode>"; exit 2
